@@ -514,6 +514,21 @@ impl Serialize for FilteredMap {
         s.collect_map(self.0.iter().filter(|x| x.0 % 2 == 0).map(|(k, v)| (k, v)))
     }
 }
+/// Declares a length and serialises nothing: isolates the varint(usize) count prefix for
+/// lengths far beyond what can be materialised (2^21, 2^28, 2^35, ... usize::MAX).
+struct DeclaredLen(usize, bool);
+impl Serialize for DeclaredLen {
+    fn serialize<S: serde::Serializer>(&self, s: S) -> Result<S::Ok, S::Error> {
+        if self.1 {
+            use serde::ser::SerializeMap;
+            s.serialize_map(Some(self.0))?.end()
+        } else {
+            use serde::ser::SerializeSeq;
+            s.serialize_seq(Some(self.0))?.end()
+        }
+    }
+}
+
 /// exact-size iterator through collect_seq: must be framed like a sequence
 struct Exact(Vec<u16>);
 impl Serialize for Exact {
@@ -523,6 +538,19 @@ impl Serialize for Exact {
 }
 
 fn c02_extras(t: &mut Tctx) {
+    if t.tid == 0 {
+        for k in 0..64u32 {
+            for d in [-1i128, 0, 1] {
+                let n = ((1u128 << k) as i128 + d).clamp(0, u64::MAX as i128) as usize;
+                let mut want = Vec::new();
+                spec::varint(n as u128, &mut want);
+                t.st.count("c02_declared_len_cases");
+                if !matches!(catch(|| postcard::to_allocvec(&DeclaredLen(n, false))), Ok(Ok(b)) if b == want) {
+                    t.st.violation("C02:count-prefix-differs", format!("count prefix for length {} differs from the specification's varint", n), vec![kv("kind", "declared_len"), kv("n", n.to_string())]);
+                }
+            }
+        }
+    }
     let rounds = t.cfg.scale(20, 20_000, 400_000);
     for i in 0..rounds {
         // (a) unknown-length sequences / maps must be refused, never mis-framed
@@ -599,6 +627,23 @@ fn c02_extras(t: &mut Tctx) {
             let want = spec::encode(&Val::Seq(ex.iter().map(|x| Val::U16(*x)).collect()));
             if !matches!(catch(|| postcard::to_allocvec(&Exact(ex.clone()))), Ok(Ok(b)) if b == want) {
                 t.st.violation("C02:bytes-differ-from-spec", "collect_seq over an exact-size iterator is not framed like a sequence".into(), vec![kv("kind", "collect_seq_exact")]);
+            }
+        }
+        // (a3) the count prefix for every magnitude of usize
+        {
+            let n = gen_uint(&mut t.rng, 64) as usize;
+            for is_map in [false, true] {
+                let mut want = Vec::new();
+                spec::varint(n as u128, &mut want);
+                t.st.count("c02_declared_len_cases");
+                match catch(|| postcard::to_allocvec(&DeclaredLen(n, is_map))) {
+                    Ok(Ok(b)) if b == want => {}
+                    other => t.st.violation(
+                        "C02:count-prefix-differs",
+                        format!("count prefix for length {} ({}) is {:?}, specification says {}", n, if is_map { "map" } else { "seq" }, other.map(|r| r.map(|b| hexs(&b)).map_err(|e| err_label(&e))), hexs(&want)),
+                        vec![kv("kind", "declared_len"), kv("n", n.to_string())],
+                    ),
+                }
             }
         }
         // (b) collect_str == encoding of the formatted text
@@ -761,6 +806,16 @@ fn enumerate_boundaries(t: &mut Tctx, which: &str) {
             vals.push((i.clone(), Val::I64((1u64 << k) as i64)));
             vals.push((i.clone(), Val::I64(((1u64 << k) as i64).wrapping_neg())));
         }
+    }
+    // long strings / byte arrays / sequences: 3-, 4-byte length prefixes with real payloads
+    if t.cfg.tier != Tier::Tiny {
+        for len in [16_383usize, 16_384, 70_000, 2_097_151, 2_097_152, 2_097_155] {
+            vals.push((Shape::Str, Val::Str("q".repeat(len))));
+            vals.push((Shape::Bytes, Val::Bytes(vec![0xA7; len])));
+        }
+        vals.push((Shape::Seq(Box::new(Shape::U8)), Val::Seq(vec![Val::U8(9); 70_000])));
+        vals.push((Shape::Seq(Box::new(Shape::Unit)), Val::Seq(vec![Val::Unit; 300_000])));
+        vals.push((Shape::Map(Box::new(Shape::U8), Box::new(Shape::Bool)), Val::Map((0..20_000).map(|i| (Val::U8(i as u8), Val::Bool(i % 3 == 0))).collect())));
     }
     let n = vals.len() as u64;
     for (i, (s, v)) in vals.into_iter().enumerate() {
@@ -971,6 +1026,7 @@ pub fn run(cfg: &Cfg, which: &str) -> Report {
         rep.floor("c02_unknown_len_cases", 10);
         rep.floor("c02_collect_str_cases", 10);
         rep.floor("c02_collect_seq_cases", 10);
+        rep.floor("c02_declared_len_cases", 100);
     }
     rep
 }
